@@ -253,4 +253,5 @@ pub fn run(out: &mut Out, tier: &str, seed: u64) {
         }
     }
     { let mut rng2 = Rng::new(seed, "c16-extra"); crate::objapi::conversions(out, &mut rng2); }
+    { let mut rng2 = Rng::new(seed, "c16-extra2"); crate::objapi::serde_field_lengths(out, &mut rng2); crate::objapi::argon2i_record(out, &mut rng2); }
 }
